@@ -913,6 +913,71 @@ class C10(Prop):
       return x
     return go(v)
 
+  REBINDERS = ['int->float', 'bool->int', 'list-copy', 'leaf-str-copy', 'int+1']
+
+  def rebind_checks(self, root, KeyPath):
+    """get_rebind_dict with rebinders whose result is equal to, but not the same object as, the old
+    value (next to one that changes the value). Expectation, computed here by an own walk: exactly
+    the outermost nodes whose result `is not` the old value, keyed by the printed path."""
+    from pyglove.core.symbolic import base as sym_base
+    import pyglove as pg
+    fns = {
+        'int->float': lambda x: float(x) if type(x) is int and abs(x) < 2 ** 53 else x,
+        'bool->int': lambda x: int(x) if type(x) is bool else x,
+        'list-copy': lambda x: list(x) if type(x) is list and x else x,
+        'leaf-str-copy': lambda x: ''.join(list(x)) + '' if type(x) is str and len(x) > 1 else x,
+        'int+1': lambda x: x + 1 if type(x) is int else x,
+    }
+    out = {}
+    for name in self.REBINDERS:
+      fn = fns[name]
+      want = []
+
+      def walk(x, keys):
+        new = fn(x)
+        if new is not x:
+          want.append((str(KeyPath(list(keys))), type(new).__name__, new))
+          return
+        if isinstance(x, dict):
+          for k, y in x.items():
+            walk(y, keys + [k])
+        elif isinstance(x, list):
+          for i, y in enumerate(x):
+            walk(y, keys + [i])
+        elif isinstance(x, pg.Object):
+          for k, y in x.sym_items():
+            walk(y, keys + [k])
+      walk(root, [])
+      try:
+        got = sym_base.get_rebind_dict((lambda f: (lambda k, x: f(x)))(fn), root)
+        got_l = [(k, type(x).__name__, x) for k, x in got.items()]
+      except Exception as e:     # pylint: disable=broad-except
+        out[name] = {'error': type(e).__name__}
+        continue
+      wk, gk = [w[0] for w in want], [g[0] for g in got_l]
+      ok_vals = all(any(g[0] == w[0] and g[1] == w[1] and g[2] == w[2] for g in got_l) for w in want)
+      out[name] = {'want': sorted(set(wk)), 'got': sorted(set(gk)), 'distinct': len(set(wk)) == len(wk),
+                   'values_ok': ok_vals}
+    return out
+
+  def oracle_rebinders(self, checks, what):
+    for name in self.REBINDERS:
+      c = checks.get(name)
+      if c is None:
+        continue
+      if 'error' in c:
+        return {'signature': 'rebinder:raises', 'what': 'get_rebind_dict(%s) on %s raised %s' % (name, what, c['error'])}
+      if not c['distinct']:
+        continue            # printed paths collide (keys outside the property's quantifier)
+      if c['got'] != c['want']:
+        missing = [k for k in c['want'] if k not in c['got']]
+        extra = [k for k in c['got'] if k not in c['want']]
+        return {'signature': 'rebinder:entries', 'what': 'get_rebind_dict with the rebinder %s on %s: nodes whose result is not '
+                'the old object but missing from the dictionary: %r; unexpected entries: %r' % (name, what, missing[:6], extra[:6])}
+      if not c['values_ok']:
+        return {'signature': 'rebinder:values', 'what': 'get_rebind_dict(%s) on %s stores other values than the rebinder returned' % (name, what)}
+    return None
+
   def impl_look(self, case, KeyPath):
     import pyglove as pg
     spec = unwval(case['v'])
@@ -988,7 +1053,8 @@ class C10(Prop):
       n_all = len(pg.query(root, custom_selector=lambda k, x: True, enter_selected=True))
     except Exception as e:     # pylint: disable=broad-except
       n_all = type(e).__name__
-    return {'model': {'pre': pre, 'visited': visited, 'probes': probes}, 'ident': ident, 'sym_obs': sym_obs,
+    rb = self.rebind_checks(root, KeyPath)
+    return {'model': {'pre': pre, 'visited': visited, 'probes': probes}, 'rebinders': rb, 'ident': ident, 'sym_obs': sym_obs,
             'probe_x': probe_x, 'n_all': n_all, 'symbolic': symbolic}
 
   def oracle_look(self, case, out):
@@ -1018,6 +1084,10 @@ class C10(Prop):
                   'sym_has / sym_get is node / sym_has(str) = %s' % (unwpath(p), node, spec, so)}
     if all(wf_key(k) for p in all_nodes(e) for k in p) and out['n_all'] != len(want):
       return {'signature': 'query:all-nodes', 'what': 'pg.query selecting every node returns %s entries for %d nodes' % (out['n_all'], len(want))}
+    if all(wf_key(k) for p in all_nodes(e) for k in p):
+      f = self.oracle_rebinders(out['rebinders'], repr(spec)[:200])
+      if f:
+        return f
     for w, got, x in zip(case['probes'], m['probes'], out['probe_x']):
       p = unwpath(w)
       r = resolves(e, p)
@@ -1357,14 +1427,25 @@ class C10(Prop):
     all_q = pg.query(v, custom_selector=lambda k, x: True, enter_selected=True)
     out = {'pre': pre, 'post': post, 'lookup': lookup, 'lookup_str': lookup_str, 'strs': strs,
            'leaves': wval(dict(leaves)), 'rebind': wval(dict(rebind))}
+    perm = {}
     for name, fck in (('t', True), ('f', False)):
       f = utils.flatten(v, fck)
+      if isinstance(f, dict) and len(f) > 1:
+        items = list(f.items())
+        orders = {'reversed': items[::-1], 'rotated': items[len(items) // 2:] + items[:len(items) // 2],
+                  'interleaved': items[1::2] + items[0::2]}
+        for oname, its in orders.items():
+          try:
+            perm[name + ':' + oname] = wval(utils.canonicalize(dict(its)))
+          except Exception as e:     # pylint: disable=broad-except
+            perm[name + ':' + oname] = _exc(e)
       out['flat_' + name] = wval(f)
       try:
         out['canon_flat_' + name] = wval(utils.canonicalize(f))
       except Exception as e:     # pylint: disable=broad-except
         out['canon_flat_' + name] = _exc(e)
-    return {'model': out, 'pre_sym': pre_sym, 'post_sym': post_sym, 'hist': hist, 'ident': ident, 'ident_str': ident_str, 'sym_strs': sym_strs, 'all_q': [cps(k) for k in all_q.keys()],
+    rb = self.rebind_checks(v, KeyPath)
+    return {'model': out, 'rebinders': rb, 'canon_perm': perm, 'pre_sym': pre_sym, 'post_sym': post_sym, 'hist': hist, 'ident': ident, 'ident_str': ident_str, 'sym_strs': sym_strs, 'all_q': [cps(k) for k in all_q.keys()],
             'leaves_rx': wval(dict(leaves_rx))}
 
   # -- the property itself ----------------------------------------------------------------
@@ -1655,6 +1736,16 @@ class C10(Prop):
         if got != wval(v) and not (isinstance(got, dict) and 'err' not in got and unwval(got) == v and self._same_types(unwval(got), v)):
           return {'signature': 'flatten-canonicalize:' + name, 'what': 'canonicalize(flatten(v, %s)) = %s for v = %r' % (
               fck, json.dumps(got)[:300], v)}
+    for key, got in sorted(out.get('canon_perm', {}).items()):
+      fck = key.startswith('t:')
+      if canonical_value(v, fck):
+        if isinstance(got, dict) and 'err' in got or not (unwval(got) == v and self._same_types(unwval(got), v)):
+          return {'signature': 'canonicalize:key-order', 'what': 'canonicalize of the %s flat form (flatten_complex_keys=%s) of %r '
+                  'gives %s' % (key.split(':')[1], fck, v, json.dumps(got)[:300])}
+    if all(wf_key(k) for p in all_nodes(v) for k in p):
+      f = self.oracle_rebinders(out['rebinders'], repr(v)[:200])
+      if f:
+        return f
     return None
 
   def _at(self, v, p):
